@@ -27,6 +27,40 @@ func init() {
 	for _, f := range []string{"key", "value"} {
 		assumeSite("C02-FRAME", "node.(YieldFromControl)#keeps-value:"+f, "`yield from` keeps its iteration state in the node that doubles as the control object; generators are outside the program class of C02 (two generators started from one `yield from` site share this state — observation in DESIGN.md)")
 	}
+	// own-field writes during evaluation that exist on the pinned tree (22 sites, read one by one): any
+	// other write of a node's own field while it is being evaluated is reported
+	for _, e := range nodeStateTable {
+		tf := strings.SplitN(e[0], ".", 2)
+		assumeSite("C02-FRAME", "node.("+tf[0]+")#keeps-state:"+tf[1], e[1])
+		assumeSite("C11-NODE", "node.("+tf[0]+")#keeps-state:"+tf[1], e[1])
+	}
+	for _, f := range []string{"key", "value"} {
+		assumeSite("C11-NODE", "node.(YieldFromControl)#keeps-state:"+f, "`yield from` keeps its iteration state in the control object of one generator; it is not reached by two requests unless they share a generator")
+	}
+}
+
+// nodeStateTable: own-field writes during evaluation that exist on the pinned tree (read one by one);
+// any other write of a node's own field while it is being evaluated is reported by C02-FRAME and C11-NODE.
+var nodeStateTable = [][2]string{
+	{"Annotation.class", "resolution cache: the class an annotation name resolves to (same answer for every activation under one VM; the cross-VM caveat is an observation in DESIGN.md)"},
+	{"NewExpression.class", "resolution cache of the class named by the `new` expression (as above)"},
+	{"NewClassGenerated.class", "resolution cache of the generated class (as above)"},
+	{"CallLater.Fun", "resolution cache of a function looked up by name on first call (observation in DESIGN.md: a base-VM function first run on a TempVM keeps that TempVM's resolution)"},
+	{"CallLater.FunName", "normalised name stored together with the resolution cache"},
+	{"CallFunctionLater.Fun", "resolution cache of a function looked up by name on first call"},
+	{"CallStaticMethodLater.call", "the static-call node is built once from the parsed names and reused; it holds no run-time value"},
+	{"CallStaticPropertyLater.access", "the static-access node is built once from the parsed names and reused"},
+	{"ClassMethod.staticLocals", "lazily created store of the method's `static` locals: per declaration by definition of `static`"},
+	{"FunctionStatement.staticLocals", "lazily created store of the function's `static` locals: per declaration by definition of `static`"},
+	{"ClassProperty.DefaultValue", "a constant default expression is folded once into its value"},
+	{"ForYieldControl.BodyIndex", "a per-activation generator control object, not an AST node"},
+	{"ForYieldControl.Value", "a per-activation generator control object, not an AST node"},
+	{"ForeachArrayYieldControl.ArrayIndex", "a per-activation generator control object, not an AST node"},
+	{"ForeachArrayYieldControl.BodyIndex", "a per-activation generator control object, not an AST node"},
+	{"ForeachArrayYieldControl.Value", "a per-activation generator control object, not an AST node"},
+}
+
+func init() {
 	register(&PropDef{
 		ID:          "C02",
 		Patterns:    []string{"./node", "./data", "./runtime", "./parser"},
@@ -1091,10 +1125,17 @@ func c02Frame(r *Run, npkg *packages.Package) {
 	writes, examined := evalClosureFieldWrites(npkg)
 	bad := map[string]bool{}
 	for _, w := range writes {
+		tstr := types.TypeString(w.ftype, func(p *types.Package) string { return p.Name() })
 		if isRuntime(w.ftype, 0) {
 			bad[w.typeName] = true
-			r.bad("node.("+w.typeName+")#keeps-value:"+w.field, w.pos, "during evaluation the node stores run-time data ("+types.TypeString(w.ftype, func(p *types.Package) string { return p.Name() })+") in its own field "+w.field+": the node is shared by every activation that reaches it, so a nested or recursive evaluation of the same site overwrites it")
+			r.bad("node.("+w.typeName+")#keeps-value:"+w.field, w.pos, "during evaluation the node stores run-time data ("+tstr+") in its own field "+w.field+": the node is shared by every activation that reaches it, so a nested or recursive evaluation of the same site overwrites it")
+			continue
 		}
+		// any other state written into the node while it is evaluated (a cache, a scratch buffer, a
+		// counter) is shared by every activation, every object and every concurrent request that reaches
+		// this site; the sites that exist on the pinned tree are listed with their reasons
+		bad[w.typeName] = true
+		r.bad("node.("+w.typeName+")#keeps-state:"+w.field, w.pos, "during evaluation the node writes its own field "+w.field+" ("+tstr+"): an AST node is shared by every activation, every object and every concurrent request that reaches this site, so state kept there is seen by all of them (a cache answers for the wrong class, a scratch buffer is overwritten by a re-entrant or parallel evaluation)")
 	}
 	tns := []string{}
 	for tn := range examined {
